@@ -168,6 +168,37 @@ pub fn run(kind: &str, ctx: &Ctx, out: &mut dyn Write) {
                             }
                         }
                         run_enum(&mut d, &[], 0, &mut s);
+                        // history with an edit: a unit clause over the NEXT new variable (no compiler
+                        // needed, the count stays the same) while cursors are somewhere in their
+                        // cycles; the edited model must page from the start of its own cycle
+                        if let (Some(ms), true) = (inp.models.as_ref(), n <= 10 && k % 3 == 0) {
+                            use ddnnife::parser::intermediate_representation::{ClauseApplication, IncrementalStrategy};
+                            run_enum(&mut d, &[], 1, &mut s); // leave the cursor of [] mid-cycle
+                            let newf = (n + 1) as i32;
+                            let r = guarded(|| d.prepare_and_apply_incremental_edit(vec![(vec![newf], ClauseApplication::Add)]));
+                            if let Ok(IncrementalStrategy::UnitClause) = r {
+                                writeln!(s, "end").unwrap();
+                                out.write_all(s.as_bytes()).unwrap();
+                                s = String::new();
+                                let edited = Input {
+                                    id: format!("{}-edited", inp.id),
+                                    n: n + 1,
+                                    desc: format!("{} | then unit clause [{}] added incrementally (same instance, cursors mid-cycle)", inp.desc, newf),
+                                    models: Some(ms.iter().map(|m| m | (1u32 << n)).collect()),
+                                    ..inp.clone()
+                                };
+                                writeln!(s, "case {} C06", edited.id).unwrap();
+                                writeln!(s, "info {}", edited.desc).unwrap();
+                                writeln!(s, "n {}", edited.n).unwrap();
+                                write_models(&mut s, &edited);
+                                s.push_str(&dump_circuit(&d));
+                                let c = ms.len().max(1);
+                                for amount in [1usize, 2, c, 1, c + 1] {
+                                    run_enum(&mut d, &[], amount, &mut s);
+                                }
+                                run_enum(&mut d, &[newf], 2, &mut s);
+                            }
+                        }
                     }
                     "c07" => {
                         for a in lists.iter() {
